@@ -166,6 +166,17 @@ func execC17(t *testing.T, c C17Case) (v Verdict) {
 				if !strings.Contains(ds, "ghost") {
 					v.failf("dial-error: the unreachable peer was not reported to the disconnect callback (got %q)", ds)
 				}
+				// the failed dial left nothing behind: once the peer is reachable the next envelope dials it and arrives
+				w.mu.Lock()
+				w.dialable["ghost"] = true
+				w.mu.Unlock()
+				_ = c0.A.Write(bg, pxEnv("c0", "ghost", 601))
+				kit.Settle()
+				if gl := w.link("ghost"); gl == nil {
+					v.failf("dial-error: after the peer became reachable an envelope for it did not trigger a new dial")
+				} else if got := gl.A.ReadAvailable(); len(got) != 1 || got[0].GetId() != 601 {
+					v.failf("dial-error: after the peer became reachable an envelope for it was not delivered (got %d)", len(got))
+				}
 			}
 		case "reattach":
 			old := w.link("c1")
@@ -184,6 +195,8 @@ func execC17(t *testing.T, c C17Case) (v Verdict) {
 			c1 = w.attach("c1") // the peer reconnects under its old name
 			kit.Settle()
 			if !c.OldFailsFirst {
+				// the superseded connection is still alive: traffic for the name must already reach the new one
+				honest("right after re-attachment")
 				if c.FailKind == "write" {
 					// the envelope must go to the new connection; the old one can only fail on read now
 					old.B.FailReads(nil)
